@@ -301,6 +301,13 @@ func BFS(sc *Scenario, mf MonitorFactory, lim Limits) *Result {
 			wg.Add(1)
 			go func() {
 				defer wg.Done()
+				defer func() {
+					if r := recover(); r != nil {
+						hmu.Lock()
+						harnessErr = fmt.Sprintf("harness panic during expansion: %v", r)
+						hmu.Unlock()
+					}
+				}()
 				var lr, lp int64
 				for fi := range next {
 					if !lim.Deadline.IsZero() && fi%64 == 0 && time.Now().After(lim.Deadline) {
